@@ -165,6 +165,7 @@ Definition exec_query (w : world) (r : nat) (o : obj) (q : query) : world * obs 
   | QMin lo hi cl => (wv, OVal (vmin (values_in_range f lo hi (lims_of f cl))))
   | QMax lo hi cl => (wv, OVal (vmax (values_in_range f lo hi (lims_of f cl))))
   | QAgg name lo hi cl =>
+      if negb (bounds_ok lo hi) then (wv, OErr EValue) else      (* agg clips first: lower < upper required *)
       match name with
       | AMin => (wv, OVal (vmin (values_in_range f lo hi (lims_of f cl))))
       | AMax => (wv, OVal (vmax (values_in_range f lo hi (lims_of f cl))))
